@@ -119,6 +119,17 @@ pub fn gen_faults(rng: &mut Rng, n: usize, span_ms: u64, max_faults: u64, allow_
     v
 }
 
+/// Corruption in flight (independent stream of the seed): one bit of one byte of the n-th
+/// connection flips; Noise must turn it into a failed handshake or a closed connection.
+pub fn gen_flip_faults(seed: u64) -> Vec<Value> {
+    let mut rng = Rng::fork(seed, "flip-faults");
+    let mut v = Vec::new();
+    if rng.chance(1, 5) {
+        v.push(json!({"at_ms": 0, "kind": "byte_flip", "conn": rng.below(6), "dir": rng.below(2), "at": byte_offset(&mut rng)}));
+    }
+    v
+}
+
 /// Process stalls (an independent stream of the seed, so plans generated before this fault kind
 /// existed are unchanged): a node's tasks are not polled for a while.
 pub fn gen_freeze_faults(seed: u64, n: usize, span_ms: u64) -> Vec<Value> {
@@ -171,10 +182,13 @@ pub fn install_static_faults(net: &SimNet, faults: &[Value]) {
                 st.connect_faults.insert(f["nth"].as_u64().unwrap_or(0) as usize, ConnectFault::Slow(f["ms"].as_u64().unwrap_or(100)));
             }
             "byte_reset" => {
-                st.byte_faults.insert(f["conn"].as_u64().unwrap_or(0) as usize, ByteFault { dir: f["dir"].as_u64().unwrap_or(0) as usize, at: f["at"].as_u64().unwrap_or(1), reset: true });
+                st.byte_faults.insert(f["conn"].as_u64().unwrap_or(0) as usize, ByteFault { dir: f["dir"].as_u64().unwrap_or(0) as usize, at: f["at"].as_u64().unwrap_or(1), reset: true, flip: false });
             }
             "byte_eof" => {
-                st.byte_faults.insert(f["conn"].as_u64().unwrap_or(0) as usize, ByteFault { dir: f["dir"].as_u64().unwrap_or(0) as usize, at: f["at"].as_u64().unwrap_or(1), reset: false });
+                st.byte_faults.insert(f["conn"].as_u64().unwrap_or(0) as usize, ByteFault { dir: f["dir"].as_u64().unwrap_or(0) as usize, at: f["at"].as_u64().unwrap_or(1), reset: false, flip: false });
+            }
+            "byte_flip" => {
+                st.byte_faults.insert(f["conn"].as_u64().unwrap_or(0) as usize, ByteFault { dir: f["dir"].as_u64().unwrap_or(0) as usize, at: f["at"].as_u64().unwrap_or(1), reset: false, flip: true });
             }
             _ => {}
         }
@@ -205,7 +219,7 @@ pub fn spawn_fault_driver(handle: &Handle, net: &SimNet, faults: &[Value], on_ki
 }
 
 pub fn spawn_fault_driver_ex(handle: &Handle, net: &SimNet, faults: &[Value], on_kill: Option<KillFn>, on_restart: Option<RestartFn>) {
-    let mut timed: Vec<Value> = faults.iter().filter(|f| f.get("at_ms").is_some() && !matches!(f["kind"].as_str(), Some("byte_reset") | Some("byte_eof"))).cloned().collect();
+    let mut timed: Vec<Value> = faults.iter().filter(|f| f.get("at_ms").is_some() && !matches!(f["kind"].as_str(), Some("byte_reset") | Some("byte_eof") | Some("byte_flip"))).cloned().collect();
     // heals are separate timed events
     let mut extra = Vec::new();
     for f in &timed {
